@@ -106,7 +106,7 @@ def gen_e2e(rng, n_cases):
             nested = [[100 + j, rng.choice([0, 50, 500]), rng.randint(0, tmax) * 1000] for j in range(rng.choice([1, 2]))]
         vanish = rng.choice([None, None, 0, 1, 2])     # the k-th deletion finds a stale folder: deleted, then OSError(ESTALE)
         cases.append({"mode": "e2e", "entries": entries, "orphans": orphans, "bl": bl, "il": il, "al": al, "now": now,
-                      "vanish": vanish, "stale": stale, "nested": nested, "loc": rng.choice(["abs", "abs", "hex", "rel", "relsub"])})
+                      "vanish": vanish, "stale": stale, "nested": nested, "symlink": rng.random() < 0.25, "loc": rng.choice(["abs", "abs", "hex", "rel", "relsub"])})
     return cases
 
 
@@ -206,6 +206,11 @@ def judge_e2e(c, r):
     if r["dirs_left"] != dirs_should or r["survivors"] != should_survive:
         return "after reduce_size survivors=%s dirs=%s, expected survivors %s dirs %s (store: %s)" % (
             r["survivors"], r["dirs_left"], should_survive, dirs_should, r.get("fs_items", r["items"]))
+    at = {i: t for i, _, t in r.get("fs_items", [])}
+    times = [at.get(i) for i in r.get("deleted_order", []) if i in at]
+    if times != sorted(times):
+        return "reduce_size removed the entries in the order %s (access times %s): not oldest first -- an interrupted run would " \
+               "have kept older entries than it removed" % (r["deleted_order"], times)
     if not r["values_ok"]:
         return "a cached call returned a wrong value after reduce_size"
     if r["recomputed"] != sorted(a for a in evicted if 0 < a < 100):
